@@ -21,7 +21,7 @@ func init() {
 			"(so the counter never exceeds the maximum); the line is cut with key[:limit] under len(key) > limit; NONEMPTY every stored entry has at least one timestamp (insertions store a one-element list, updates append, the expiry reslice is followed in the same " +
 			"critical section by the deletion of every entry that became empty); EVICT the eviction loop takes the front of a list that holds every stored entry, sorted ascending by last timestamp, and runs only while need + size > max, which with need <= max and ACCOUNT " +
 			"implies a non-empty list; every other index/slice in the three methods and their comparison closures is proved by BOUND (sort.Slice contract for the closures); all methods are lock-balanced and touch the state only under the lock; " +
-			"the constructor is only called with positive limits. TRUNC a line is inserted only with len <= logMaxLineBytes and the duplicate test uses the same (cut) line as the insertion. NOT decided: the long-run behaviour over arbitrary operation sequences as such (these are the inductive invariants such a behaviour rests on, each checked at every writer), DumpLogEntries' output order beyond the comparator direction.",
+			"the constructor is only called with positive limits. TRUNC a line is inserted only with len <= logMaxLineBytes and the duplicate test uses the same (cut) line as the insertion. The insertion and every deletion in Printf happen only on the way on which the duplicate test found nothing (a repeated line displaces nothing). NOT decided: the long-run behaviour over arbitrary operation sequences as such (these are the inductive invariants such a behaviour rests on, each checked at every writer), DumpLogEntries' output order beyond the comparator direction.",
 		Assumptions: append([]string{"sort.Slice sorts according to the less function (godoc)", "NewEventLogger is only called with positive limits (checked at every call site in the repository: rule CFG)"}, baseAssumptions...),
 		Run:         runC18,
 	})
@@ -879,6 +879,32 @@ func eventLogLineLimit(c *an.Ctx) {
 								}
 							}
 						}
+					}
+				}
+				// a repeated line only gets a new timestamp: nothing is evicted for it and it is not inserted (charged) again -
+				// every deletion and the insertion in this function happen on the way on which the lookup found nothing
+				var lk *ssa.Lookup
+				for _, bb := range fn.Blocks {
+					for _, i2 := range bb.Instrs {
+						if x, ok := i2.(*ssa.Lookup); ok && x.CommaOk {
+							if f, ok := fi.RefClass(x.X).FieldOf("EventLogger"); ok && f == "logs" && fi.Term(x.Index).Key() == keyT.Key() {
+								lk = x
+							}
+						}
+					}
+				}
+				if lk != nil {
+					notFound := func(at ssa.Instruction) bool {
+						for _, f := range fi.FactsAt(at) {
+							if f.Neg && f.T.K == an.KExt && f.T.S == "1" && f.T.A[0].Val == ssa.Value(lk) {
+								return true
+							}
+						}
+						return false
+					}
+					c.Check(notFound(mu), "TRUNC", fn, mu.Pos(), an.KeyOf(fn, "insert-only-when-new"), "a line is inserted (and charged) only when the duplicate test found no entry for it", "facts at the insertion")
+					for _, d := range logDeletes(p, fn) {
+						c.Check(notFound(d.at), "TRUNC", fn, d.at.Pos(), an.KeyOf(fn, "evict-only-when-new"), "entries are evicted only to make room for a line that is not in the log yet: a repeated line just gets a new timestamp and displaces nothing (in particular not itself)", "facts at the deletion "+factList(fi.FactsAt(d.at)))
 					}
 				}
 				c.Check(sameKey && nLk > 0, "TRUNC", fn, mu.Pos(), an.KeyOf(fn, "lookup-key-is-insert-key"), "the duplicate test uses the same (cut) line as the insertion: a repeated long line is recognised as a repeat and is not charged again", fmt.Sprintf("%d lookups", nLk))
